@@ -60,8 +60,8 @@ func init() {
 			"calls inside a classified body are assumed not to print or call script code unless they are the known output/evaluation entry points",
 		},
 		Rules: []RuleDef{
-			{Name: "C20-GLOBALS", Floor: 5, Doc: "every package-level variable that interpreter code writes outside init is reset per VM, write-once configuration, keyed by VM/request, or a listed finding", Run: c20Globals},
-			{Name: "C20-MAPORDER", Floor: 12, Doc: "every range over a Go map in interpreter and stdlib packages is order-insensitive by shape, or its result is sorted before use, or it is a reviewed entry", Run: c20MapOrder},
+			{Name: "C20-GLOBALS", Floor: 2, Doc: "every package-level variable that interpreter code writes outside init is reset per VM, write-once configuration, keyed by VM/request, or a listed finding", Run: c20Globals},
+			{Name: "C20-MAPORDER", Floor: 5, Doc: "every range over a Go map in interpreter and stdlib packages is order-insensitive by shape, or its result is sorted before use, or it is a reviewed entry", Run: c20MapOrder},
 		},
 	})
 }
